@@ -325,6 +325,9 @@ func genAnnot(seed uint64, n int, tier string, emit func(string, []string, any))
 		{"// @Route(/a/{id}, {x: \"})\"}) d"},
 		{"// @Query(name , { name: 'n', validate: \"required,gt=1\" }) The name"},
 		{"// first", "// @Path(id)", "// after gap"},
+		// strings.TrimSpace strips every Unicode blank before the regex (whose \s is ASCII only) sees the line
+		{"// @Hidden\u3000", "// @Route(/users/{id})\u00a0", "// @Path(id) the id\u3000", "// @Method(GET)\v"},
+		{"// free text first", "// @Description", "// @Method(GET)"},
 	}
 	for _, c := range corpus {
 		ls := []annotLine{}
